@@ -97,9 +97,15 @@ class InboxSched(Part):
 
     def case_coq(self, inp, o, sched=None, trace=None):
         replay = sched is not None
+        # the batch bound of the model is the argument the code actually passes to PopN (the
+        # theorems hold for every bound >= 1); fall back to the constant read from the source
+        bound = BOUND
+        ns = {e["a"][0] for e in (trace or []) if e["op"] == "popn" and e.get("a")}
+        if len(ns) == 1 and 1 <= list(ns)[0] < 5000:
+            bound = list(ns)[0]
         return ("{| c_prop := %s; c_bound := %s; c_started := %s; c_clients := %s; c_sched := %s; c_labels := %s; "
                 "c_replay := %s; c_obs := %s |}") % (
-            C.cnat(self.prop), C.cnat(BOUND), C.cbool(not inp["starter"]), clients_coq(inp),
+            C.cnat(self.prop), C.cnat(bound), C.cbool(not inp["starter"]), clients_coq(inp),
             C.clist([C.cnat(g) for g in (sched or [])]), C.clist([label_coq(e) for e in (trace or [])]),
             C.cbool(replay), obs_coq(o))
 
